@@ -414,6 +414,7 @@ theorem exec_good (σ : State S) (g : Good σ) (c : Cmd S) : ResGood (exec σ c)
   | «show» v => simp only [exec]; gb h hh; gp
   | idx v i => simp only [exec]; gb h hh; gb x hx; gp
   | idxflat v i => simp only [exec]; gb h hh; gb x hx; gp
+  | convat a f sr sc i => simp only [exec]; gb h hh; gb x hx; split; gp; exact resGood_throw _
   | eq a b => simp only [exec]; gb h hh; gb x hx; gp
   | same a b => simp only [exec]; gb h hh; gb x hx; gp
   | samegrad a b => simp only [exec]; gb h hh; gb x hx; gp
